@@ -94,13 +94,39 @@ func c09Main(r *run.Runner) {
 	})
 	// interesting runes in every lexical context
 	runes := []string{"\u0085", "\u00a0", "\u1680", "\u2000", "\u2028", "\u2029", "\u202f", "\u205f", "\u3000", "\ufeff", "\u200b", "\u00e9", "\u0131", "\u212a", "\U0001F600", "\u0300",
-		"\x80", "\xc2", "\xe2\x80", "\xed\xa0\x80", "\xf4\x90\x80\x80", "\x0b", "\x0c", "\x1f", "\x7f"}
-	contexts := []string{"%s", "a%sb", "a %s b", "1%s2", "'%s'", "'\\%s'", "\"p%sq\"", "`%s`", "a //%sb\nc", "//%s", "a //x%s", "a%s;b", "!%s", "0x%s1", "1e%s5", "a.%sb", "a/%s/b", "<%s=", "'unterminated%s", "`q%s\nr"}
+		"\x80", "\xc2", "\xe2\x80", "\xed\xa0\x80", "\xf4\x90\x80\x80", "\x0b", "\x0c", "\x1f", "\x7f",
+		"\ufffd", "\ufffe", "\uffff", "\U0010ffff", "\u0000", "\u007f\u0080", "\u07ff\u0800", "\xef\xbf", "\xf0\x9f\x98"}
+	contexts := []string{"%s", "a%sb", "a %s b", "1%s2", "'%s'", "'\\%s'", "\"p%sq\"", "`%s`", "a //%sb\nc", "//%s", "a //x%s", "a%s;b", "!%s", "0x%s1", "1e%s5", "a.%sb", "a/%s/b", "<%s=", "'unterminated%s", "`q%s\nr",
+		"'x\\ty%sz'", "\"%s\\n%s\"", "'\\\\%s\\''", "`a``%sb`", "'p%s' 'q\\t%s'", "\"\\q%s\""}
 	bounds["unicode_contexts"] = len(runes) * len(contexts)
 	r.Sweep("unicode-contexts", int64(len(runes)), func(w *run.Worker, item int64) {
 		for _, c := range contexts {
 			c09One(w, strings.Replace(c, "%s", runes[item], 1))
 			c09One(w, strings.Replace(c, "%s", runes[item]+runes[(item+1)%int64(len(runes))], 1))
+		}
+	})
+	// every byte after a backslash inside a string, followed by text that some other language would read as part of the escape
+	conts := []string{"", "0", "00", "41", "0041", "00000041", "{41}", "{0041}", "101", "x41", "u0041", "N{DASH}", "\n", "'", "\\", "é"}
+	bounds["escapes"] = 256 * len(conts) * 3
+	r.Sweep("escapes", 256, func(w *run.Worker, item int64) {
+		c := string([]byte{byte(item)})
+		for _, ct := range conts {
+			c09One(w, "'\\"+c+ct+"'")
+			c09One(w, "\"a\\"+c+ct+"b\" x")
+			c09One(w, "'\\"+c+ct)
+		}
+	})
+	// long runs of bytes that each give an error token (limits on the number of diagnostics), alone and spread over statements
+	junkSizes := []int{9, 10, 11, 99, 100, 101, 255, 256, 257, 999, 1000, 1001, 1023, 1024, 1025, 4095, 4096, 4097, 10000}
+	if r.Thorough() {
+		junkSizes = append(junkSizes, 65535, 65536, 65537, 100000)
+	}
+	r.Sweep("error-runs", int64(len(junkSizes)), func(w *run.Worker, item int64) {
+		n := junkSizes[item]
+		for _, j := range []string{"#", "\x00", "! ", "\xff", "'\n", "0x "} {
+			c09One(w, strings.Repeat(j, n))
+			c09One(w, strings.Repeat(j, n/2)+";"+strings.Repeat(j, n-n/2)+"; T | count")
+			c09One(w, "T | where a"+strings.Repeat(j, n)+" | count")
 		}
 	})
 	// sequences of tricky lexemes: state carried from one token to the next (buffers, look-ahead)
